@@ -5,7 +5,7 @@ patch, build, run the whole existing suite (must pass), add the demonstration te
 usage: confirm_seed.py <seed-id> <property> <patch.diff> <needs> <demo_src:target_dir> [...]"""
 import os, sys, subprocess, json, shutil, tempfile, re
 HERE = os.path.dirname(os.path.abspath(__file__))
-ENV = dict(os.environ, GOFLAGS="-mod=mod", GOPROXY="off", GOSUMDB="off", GOTOOLCHAIN="local")
+ENV = dict(os.environ, GOFLAGS="-mod=mod -trimpath", GOPROXY="off", GOSUMDB="off", GOTOOLCHAIN="local")
 ENV.pop("GOWORK", None)
 
 def sh(cmd, cwd, check=False):
